@@ -191,6 +191,31 @@ def window_effect(d):
     return kept, removed
 
 
+def second_trim_effect(d):
+    """Would a window computed again from the *surviving* spans remove
+    further traces?  (A run that does not ingest must not do that; data sets
+    where it would are the sensitive ones.)"""
+    import checks.c14 as c14
+    wfs = c14.spans_of(d)
+    tb = d.get("time_buffer", 0) * 60 * 10**9
+    traces = [sp for tr in wfs.values() for sp in tr.values()]
+
+    def trim(ts):
+        allsp = [s for sp in ts for s in sp.values()]
+        lo = min(s["start"] for s in allsp) + tb
+        hi = max(s["end"] for s in allsp) - tb
+        if lo >= hi:
+            return None
+        return [sp for sp in ts if any(
+            lo <= s["start"] <= hi or lo <= s["end"] <= hi
+            for s in sp.values())]
+    first = trim(traces)
+    if not first:
+        return False
+    second = trim(first)
+    return bool(second) and len(second) < len(first)
+
+
 def big_dataset():
     """one workflow, 140 traces of 8 spans (two shapes), batch size 1000"""
     tmpl = [[None, "A0", 0, 9], [0, "A1", 1, 2], [0, "A2", 4, 2],
@@ -221,6 +246,8 @@ def classify(case):
         cl.append("time_buffer>0")
         if window_effect(case["data"])[1]:
             cl.append("window_removes_a_trace")
+        if second_trim_effect(case["data"]):
+            cl.append("second_trim_would_remove_more")
     if sum(len(t) for w in case["data"]["workflows"]
            for t in w["traces"]) > 999:
         cl.append("more_than_999_spans_in_one_batch")
@@ -255,8 +282,8 @@ def data_strategy():
             # trace so that some lie entirely inside the buffers
             for w in d["workflows"]:
                 w["traces"] = [[[t[0], t[1], t[2] + off, t[3]] for t in tr]
-                               for tr, off in zip(w["traces"], [draw(
-                                   st.sampled_from([0, 0, 6, 20, 40, 100]))
+                               for tr, off in zip(w["traces"], [
+                                   10 * draw(st.integers(0, 12))
                                    for _ in w["traces"]])]
             hi = max(t[2] + t[3] for w in d["workflows"]
                      for tr in w["traces"] for t in tr)
@@ -273,7 +300,7 @@ def draw_datasets(n, seed):
     out = []
 
     @hseed(seed)
-    @settings(max_examples=max(n * 30, 60), database=None, deadline=None,
+    @settings(max_examples=max(n * 100, 300), database=None, deadline=None,
               phases=[Phase.generate],
               suppress_health_check=list(HealthCheck))
     @given(data_strategy())
@@ -286,6 +313,7 @@ def draw_datasets(n, seed):
         k, r = window_effect(d) if d.get("time_buffer") else (1, 0)
         return (len(d["workflows"]) >= 2) + (ntr >= 4) + \
             bool(d.get("time_buffer")) + 2 * bool(k and r) + \
+            3 * bool(d.get("time_buffer") and second_trim_effect(d)) + \
             any(t[1][0] == 99 for w in d["workflows"] for t in w["traces"]
                 if len(t) > 1)
     out.sort(key=score, reverse=True)
